@@ -113,6 +113,12 @@ def m_dummy_with_cmt(it, ctx, a, m, f):
     return Adt('Span', None, [n, n], ['lo', 'hi'])
 
 
+@model(r' as (ops::)?(function::)?Fn(Mut|Once)?<\(.*\)>>::call(_mut|_once)?$')
+def m_closure_call(it, ctx, a, m, f):
+    args = a[1] if isinstance(a[1], list) else [a[1]]
+    return it.call_closure(ctx, a[0], list(args))
+
+
 # ---------------------------------------------------------------- drops / no-ops / identity conversions
 @model(r' as Drop>::drop$|^mem::drop::|^mem::forget|^must_use::|^hint::')
 def m_nop(it, ctx, a, m, f):
